@@ -30,8 +30,14 @@ func isValueTerm(t string) bool { return strings.HasSuffix(t, ".Value") }
 func c02r1(c *Ctx) {
 	const rule = "C02-R1"
 	c.Rule(rule, "every subtraction from a balance is guarded by exactly Cmp >= 0; every signed addition is followed by exactly Cmp(Value, 0) >= 0", 4)
+	balanceArithmeticGuarded(c, rule, nil)
+}
+
+// balanceArithmeticGuarded: the overdraft guards of every Value.Sub / signed Value.Add in builtInFunctions (restricted to
+// the functions of `only` when given). Shared by C02-R1 and C01-R7.
+func balanceArithmeticGuarded(c *Ctx, rule string, only map[*ssa.Function]bool) {
 	for _, fn := range c.P.Funcs {
-		if !c.P.InPkgs(fn, "builtInFunctions") {
+		if !c.P.InPkgs(fn, "builtInFunctions") || only != nil && !only[fn] {
 			continue
 		}
 		e := c.P.Env(fn)
